@@ -112,7 +112,7 @@ def scenarios(ctx):
         # B. established session: traffic, expiries, disconnect()/loss and API calls until the loss is reported
         out.append(Std('pub-%s' % mode, profile='pub', mode=mode, init=CONNECTED, reconnects=[(True, 0, 4)],
                        pub_qos=(0, 1, 2), api_after_close=True, rx_after_close=True,
-                       budgets=dict(pub=2, ack=2 if q else 3, tick=2, lose=1, rebuild=1, disconnect=1, connect=1,
+                       budgets=dict(pub=2, ack=2 if q else 3, misack=1, tick=2, lose=1, rebuild=1, disconnect=1, connect=1,
                                     connack=1, reconn2=1), closing=False))
         out.append(Std('sub-%s' % mode, profile='sub', mode=mode,
                        init=(('connect', 0, True, 2, 3), ('connack', 0, 0, False)),
